@@ -161,6 +161,8 @@ def _run_c_case(pid, tier, c, r, h, variant, out, sweep, count_state):
     out.count("traces", n)
     out.count("nontrivial", sum(1 for i, t in inputs if t[0] == "storage"))
     for (img, tagv), (flag, wire) in zip(inputs, enc):
+        if tagv[0] == "value":
+            out.outcome(variant, wire)
         exp = ref.encode(c.msg, sweeps.image_vec(row, leaves, img), lay)
         if wire != exp:
             li = tagv[1] if tagv[0] == "storage" else None
